@@ -5,7 +5,7 @@ import ast
 from typing import Dict, List, Optional, Set, Tuple
 
 from ..fold import MUTATORS
-from ..core import Ctx, assigned_names, dotted, norm, stmts_local, walk_local
+from ..core import Ctx, assigned_names, dotted, norm, presence_test, stmts_local, walk_local
 from ..effects import Effects
 from ..setorder import SetOrder
 from ..typed import Typed, is_set_type
@@ -71,6 +71,35 @@ AMBIENT_ALLOWED = {
 }
 AMBIENT_PREFIXES = ("random.", "time.", "uuid.", "secrets.", "os.environ", "os.getenv", "datetime.now", "datetime.today", "date.today",
                     "datetime.datetime.now", "datetime.date.today", "os.urandom", "threading.get_ident", "os.getpid")
+
+
+def lazy_global(fs) -> Optional[str]:
+    """`G = None` at module level; `def f(): global G; if G is None: ...; G = <built here>; return G` -- a memo of a parameterless function kept
+    in a module variable.  Returns G if the function has this shape (one global, no parameters, every rebinding under `if G is None`)."""
+    fn = fs.node
+    globs = [n for s in walk_local(fn) if isinstance(s, ast.Global) for n in s.names]
+    a = fn.args
+    if len(globs) != 1 or a.posonlyargs or a.args or a.kwonlyargs or a.vararg or a.kwarg:
+        return None
+    G = globs[0]
+    init = fs.mod.toplevel_assign(G)
+    if not (isinstance(init, ast.Constant) and init.value is None):
+        return None
+    stores = [s for s in walk_local(fn) if isinstance(s, (ast.Assign, ast.AnnAssign, ast.AugAssign, ast.For, ast.With, ast.NamedExpr, ast.Delete)) and G in assigned_names(s)]
+    if not stores:
+        return None
+    for st in stores:
+        if not isinstance(st, ast.Assign):
+            return None
+        cur, ok = st, False
+        while cur is not fn:
+            par = cur.parent
+            if isinstance(par, ast.If) and cur in par.body and presence_test(par.test) == (G, False):
+                ok = True
+            cur = par
+        if not ok:
+            return None
+    return G
 
 
 def rule_persistent_cache(ctx: Ctx, repo, scope_funcs):
@@ -176,12 +205,12 @@ def run(ctx: Ctx):
     entry_writes = sorted(eff.tw[ENTRY], key=str)
     for root, origin, line, how in entry_writes:
         fs = eff.funcs[origin]
-        memo = how.startswith("memo ")
+        memo = how.startswith("memo ") or (root[0] == "global" and lazy_global(fs) == root[1])  # the latter is judged as a memo by R-C15-6
         ctx.ob("R-C15-3", f"{origin}/write:{how}", memo,
                f"extraction writes through {root[0]} `{root[1]}` of get_citations ({how} at line {line}): shared state (the default tokenizer, "
                "its extractors, module-level objects, arguments) must not change, except by an idempotent hasattr-guarded memo",
                node=fs.node, mod=fs.mod)
-    ctx.ob("R-C15-3", f"{ENTRY}/no-global-or-argument-writes", all(h.startswith("memo ") for _, _, _, h in entry_writes),
+    ctx.ob("R-C15-3", f"{ENTRY}/no-global-or-argument-writes", all(h.startswith("memo ") or (r[0] == "global" and lazy_global(eff.funcs[o]) == r[1]) for r, o, _, h in entry_writes),
            f"transitive write-set of get_citations over non-fresh objects: {[(r, o, h) for r, o, _, h in entry_writes]}",
            node=eff.funcs[ENTRY].node, mod=eff.funcs[ENTRY].mod)
     for q in scope:
@@ -192,7 +221,7 @@ def run(ctx: Ctx):
             ctx.ob("R-C15-3", f"{q}/call:{norm(c.func)[:40]}", reason is not None,
                    reason or "call target cannot be resolved, so its effects are unknown", node=c, mod=fs.mod, nontrivial=False)
         for n in walk_local(fs.node):
-            if isinstance(n, (ast.Global, ast.Nonlocal)) and q in reach:
+            if isinstance(n, (ast.Global, ast.Nonlocal)) and q in reach and not (isinstance(n, ast.Global) and lazy_global(fs) in n.names):
                 ctx.ob("R-C15-3", f"{q}/global-decl", False, "global/nonlocal rebinding on the extraction path", node=n, mod=fs.mod)
         for d in fs.node.args.defaults + [k for k in fs.node.args.kw_defaults if k is not None]:
             if isinstance(d, (ast.List, ast.Dict, ast.Set)) or (isinstance(d, ast.Call) and dotted(d.func) in ("list", "dict", "set", "defaultdict")):
@@ -302,6 +331,51 @@ def run(ctx: Ctx):
                 [str(x.value) for x in ast.walk(a) if isinstance(x, ast.Constant)]
         return bool(names) and all(x in IMMUT or x == "re" or x == "typing" or x == "Ellipsis" for x in names)
 
+    def _shared_result(fs):
+        """is the object a memo hands to every caller immutable, or private and only read by the callers?"""
+        res_ok = _immutable_ann(fs.node.returns)
+        how_res = f"declared return type: {norm(fs.node.returns) if fs.node.returns else 'none'}"
+        if not res_ok:
+            # a mutable result is still invisible if nobody who receives it can change it: every call site in the package binds the
+            # result (or its unpacked parts) to locals that are only read
+            bad_uses = []
+            n_sites = 0
+            for q2, fs2 in eff.funcs.items():
+                for c in [x for x in walk_local(fs2.node) if isinstance(x, ast.Call) and (dotted(x.func) or "").split(".")[-1] == fs.node.name]:
+                    n_sites += 1
+                    par = getattr(c, "parent", None)
+                    names = []
+                    if isinstance(par, ast.Assign) and par.value is c:
+                        for t in par.targets:
+                            names += [e_.id for e_ in (t.elts if isinstance(t, (ast.Tuple, ast.List)) else [t]) if isinstance(e_, ast.Name)]
+                            if not all(isinstance(e_, ast.Name) for e_ in (t.elts if isinstance(t, (ast.Tuple, ast.List)) else [t])):
+                                bad_uses.append(f"{q2}: stored into {norm(t)[:30]}")
+                    elif isinstance(par, (ast.Subscript, ast.Attribute, ast.For, ast.comprehension, ast.Compare)):
+                        pass  # read in place
+                    else:
+                        bad_uses.append(f"{q2}: {norm(par)[:40] if par is not None else '?'}")
+                    for nm in names:
+                        for u in [x for x in walk_local(fs2.node) if isinstance(x, ast.Name) and x.id == nm and isinstance(x.ctx, ast.Load)]:
+                            up = getattr(u, "parent", None)
+                            if isinstance(up, ast.Attribute) and isinstance(getattr(up, "parent", None), ast.Call) and up.parent.func is up:
+                                if up.attr in MUTATORS:
+                                    bad_uses.append(f"{q2}: {nm}.{up.attr}()")
+                                continue
+                            if isinstance(up, ast.Subscript) and up.value is u:
+                                if isinstance(up.ctx, (ast.Store, ast.Del)):
+                                    bad_uses.append(f"{q2}: {nm}[..] = ..")
+                                continue
+                            if isinstance(up, (ast.For, ast.comprehension)) and up.iter is u:
+                                continue
+                            if isinstance(up, ast.Compare) or (isinstance(up, ast.Call) and dotted(up.func) in ("len", "sorted", "iter", "list", "tuple", "set", "frozenset", "dict", "min", "max", "any", "all", "enumerate", "zip", "bool")):
+                                continue
+                            if isinstance(up, (ast.If, ast.While, ast.BoolOp, ast.UnaryOp, ast.IfExp)):
+                                continue
+                            bad_uses.append(f"{q2}: {nm} escapes through {type(up).__name__}")
+            res_ok = n_sites > 0 and not bad_uses and fs.node.name.startswith("_")
+            how_res += f"; private, {n_sites} call site(s), read-only uses" if res_ok else f"; uses that could change or leak it: {bad_uses[:3]}"
+        return res_ok, how_res
+
     n_memo = 0
     for q, fs in eff.funcs.items():
         for d in fs.node.decorator_list:
@@ -319,50 +393,26 @@ def run(ctx: Ctx):
                    "what the function reads, so a later call would get an earlier call's result", node=fs.node, mod=fs.mod)
             ctx.ob("R-C15-6", f"{q}/memo-pure", not eff.tw[q] and not fs.unknown_calls,
                    f"a memoised function must be pure (write-set {sorted(map(str, eff.tw[q]))[:3]}, unresolved calls {len(fs.unknown_calls)})", node=fs.node, mod=fs.mod)
-            res_ok = _immutable_ann(fs.node.returns)
-            how_res = f"declared return type: {norm(fs.node.returns) if fs.node.returns else 'none'}"
-            if not res_ok:
-                # a mutable result is still invisible if nobody who receives it can change it: every call site in the package binds the
-                # result (or its unpacked parts) to locals that are only read
-                bad_uses = []
-                n_sites = 0
-                for q2, fs2 in eff.funcs.items():
-                    for c in [x for x in walk_local(fs2.node) if isinstance(x, ast.Call) and (dotted(x.func) or "").split(".")[-1] == fs.node.name]:
-                        n_sites += 1
-                        par = getattr(c, "parent", None)
-                        names = []
-                        if isinstance(par, ast.Assign) and par.value is c:
-                            for t in par.targets:
-                                names += [e_.id for e_ in (t.elts if isinstance(t, (ast.Tuple, ast.List)) else [t]) if isinstance(e_, ast.Name)]
-                                if not all(isinstance(e_, ast.Name) for e_ in (t.elts if isinstance(t, (ast.Tuple, ast.List)) else [t])):
-                                    bad_uses.append(f"{q2}: stored into {norm(t)[:30]}")
-                        elif isinstance(par, (ast.Subscript, ast.Attribute, ast.For, ast.comprehension, ast.Compare)):
-                            pass  # read in place
-                        else:
-                            bad_uses.append(f"{q2}: {norm(par)[:40] if par is not None else '?'}")
-                        for nm in names:
-                            for u in [x for x in walk_local(fs2.node) if isinstance(x, ast.Name) and x.id == nm and isinstance(x.ctx, ast.Load)]:
-                                up = getattr(u, "parent", None)
-                                if isinstance(up, ast.Attribute) and isinstance(getattr(up, "parent", None), ast.Call) and up.parent.func is up:
-                                    if up.attr in MUTATORS:
-                                        bad_uses.append(f"{q2}: {nm}.{up.attr}()")
-                                    continue
-                                if isinstance(up, ast.Subscript) and up.value is u:
-                                    if isinstance(up.ctx, (ast.Store, ast.Del)):
-                                        bad_uses.append(f"{q2}: {nm}[..] = ..")
-                                    continue
-                                if isinstance(up, (ast.For, ast.comprehension)) and up.iter is u:
-                                    continue
-                                if isinstance(up, ast.Compare) or (isinstance(up, ast.Call) and dotted(up.func) in ("len", "sorted", "iter", "list", "tuple", "set", "frozenset", "dict", "min", "max", "any", "all", "enumerate", "zip", "bool")):
-                                    continue
-                                if isinstance(up, (ast.If, ast.While, ast.BoolOp, ast.UnaryOp, ast.IfExp)):
-                                    continue
-                                bad_uses.append(f"{q2}: {nm} escapes through {type(up).__name__}")
-                res_ok = n_sites > 0 and not bad_uses and fs.node.name.startswith("_")
-                how_res += f"; private, {n_sites} call site(s), read-only uses" if res_ok else f"; uses that could change or leak it: {bad_uses[:3]}"
+            res_ok, how_res = _shared_result(fs)
             ctx.ob("R-C15-6", f"{q}/memo-result", res_ok,
                    f"the cached result is shared by every caller, so it must be immutable, or private and only ever read by its callers ({how_res})",
                    node=fs.node, mod=fs.mod)
+    # a module variable filled on first use by a parameterless function is the same thing without the decorator
+    for q in scope:
+        fs = eff.funcs[q]
+        G = lazy_global(fs)
+        if G is None:
+            continue
+        n_memo += 1
+        others = [w for w in eff.tw[q] if not (w[0] == ("global", G))]
+        ctx.ob("R-C15-6", f"{q}/memo-pure", not others and not fs.unknown_calls and not any(k_ == "ambient" and q_ == q for q_, _c, _o, k_ in eff.external_calls),
+               f"`{G}` is built once by `{q}`; the builder must be pure apart from publishing it (other writes {sorted(map(str, others))[:3]}, unresolved calls "
+               f"{len(fs.unknown_calls)}): then concurrent or repeated first calls build equal values", node=fs.node, mod=fs.mod)
+        res_ok, how_res = _shared_result(fs)
+        direct = [n for q2, fs2 in eff.funcs.items() if q2 != q for n in walk_local(fs2.node) if isinstance(n, ast.Name) and n.id == G and fs2.mod is fs.mod]
+        ctx.ob("R-C15-6", f"{q}/memo-result", res_ok and not direct,
+               f"the published object is shared by every caller, so it must be immutable, or private and only ever read by its callers ({how_res}; "
+               f"direct uses of `{G}` outside the builder: {len(direct)})", node=fs.node, mod=fs.mod)
     ctx.ob("R-C15-6", "package/memo-decorators", True, f"{n_memo} function(s) wrapped in functools.lru_cache/cache", node=None, mod=repo.mod("utils"), nontrivial=False)
 
     # ---- R-C15-1 set order -----------------------------------------------------
@@ -437,6 +487,17 @@ def run(ctx: Ctx):
                     ctx.ob("R-C15-4", f"{body_owner}/ambient:{norm(n)[:30]}", key is not None,
                            AMBIENT_ALLOWED[key] if key else "ambient input (clock / randomness / environment) on the extraction path",
                            node=n, mod=mod)
+                # a time budget handed to a library makes its result depend on how fast this run happens to be (CPU clock, load from other
+                # threads): only "no limit" (0 / None) is an input-independent setting
+                for k_ in n.keywords:
+                    if k_.arg in ("timelimit", "timeout", "time_limit", "deadline", "max_time", "budget"):
+                        v_ = k_.value
+                        if isinstance(v_, ast.Name) and mod.toplevel_assign(v_.id) is not None:
+                            v_ = mod.toplevel_assign(v_.id)
+                        unlimited = isinstance(v_, ast.Constant) and (v_.value is None or v_.value == 0)
+                        ctx.ob("R-C15-4", f"{body_owner}/time-budget:{norm(n.func)[:30]}", unlimited,
+                               f"`{k_.arg}={norm(k_.value)[:30]}`: the callee watches a clock, so the same input gives a complete result on an idle machine and a "
+                               "cut-off one under load", node=n, mod=mod, nontrivial=not unlimited)
                 if d == "id" and not body_owner.endswith(".__hash__"):
                     is_memo_key = False
                     ctx.ob("R-C15-4", f"{body_owner}/id()", _id_only_as_key(n), "id() may be used as an identity hash or as a dict key for objects that stay alive, not as a value",
